@@ -423,11 +423,12 @@ func (p *Parser) findInjectDirectives(file *ast.File, pkg *packages.Package, kes
 	}
 
 	var builds []*BuildDirective
+	var fatal error
 
 	ast.Inspect(file, func(n ast.Node) bool {
 		callExpr, ok := n.(*ast.CallExpr)
-		if !ok {
-			return true
+		if !ok || fatal != nil {
+			return fatal == nil
 		}
 
 		// kessoku.Inject[T](...), or Inject[T](...) when kessoku is dot-imported
@@ -466,6 +467,12 @@ func (p *Parser) findInjectDirectives(file *ast.File, pkg *packages.Package, kes
 
 		build, err := p.parseInjectCall(pkg, kessokuPackageScope, callExpr, imports, fileImports, varPool)
 		if err != nil {
+			var local *localReferenceError
+			if errors.As(err, &local) {
+				// not a declaration to skip: generating from it would bind the name to something else
+				fatal = err
+				return false
+			}
 			slog.Warn("parseInjectCall failed", "callExpr", callExpr, "error", err)
 			return true
 		}
@@ -473,6 +480,9 @@ func (p *Parser) findInjectDirectives(file *ast.File, pkg *packages.Package, kes
 		builds = append(builds, build)
 		return false
 	})
+	if fatal != nil {
+		return nil, fatal
+	}
 
 	return builds, nil
 }
@@ -508,6 +518,10 @@ func (p *Parser) parseInjectCall(pkg *packages.Package, kessokuPackageScope *typ
 		build.Return.ASTTypeExpr = fun.Indices[0]
 	default:
 		return nil, fmt.Errorf("kessoku.Inject requires at least 1 type argument")
+	}
+
+	if err := p.checkNoLocalReference(pkg, build.Return.ASTTypeExpr); err != nil {
+		return nil, err
 	}
 
 	if len(call.Args) == 0 {
@@ -614,6 +628,10 @@ func (p *Parser) parseProviderArgument(pkg *packages.Package, kessokuPackageScop
 	result, err := p.parseProviderType(pkg, providerType, varPool)
 	if err != nil {
 		return fmt.Errorf("parse provider type: %w", err)
+	}
+
+	if err := p.checkNoLocalReference(pkg, arg); err != nil {
+		return err
 	}
 
 	// Collect dependencies from provider expression and get referenced imports
@@ -844,6 +862,42 @@ func extractExportedFields(t types.Type) ([]*StructFieldSpec, error) {
 	})
 
 	return fields, nil
+}
+
+// localReferenceError reports an expression of a declaration that cannot be copied into the generated
+// function because it uses an identifier that only exists inside the function the declaration is written in.
+type localReferenceError struct {
+	pos  token.Position
+	name string
+}
+
+func (e *localReferenceError) Error() string {
+	return fmt.Sprintf("%s: %s is local to the function that contains the kessoku.Inject declaration and does not exist in the generated function", e.pos, e.name)
+}
+
+// checkNoLocalReference reports the first identifier of expr that denotes an object declared inside a
+// function but outside expr itself (parameters and locals of a function literal of expr are fine).
+func (p *Parser) checkNoLocalReference(pkg *packages.Package, expr ast.Expr) error {
+	if pkg.Types == nil || pkg.TypesInfo == nil || expr == nil {
+		return nil
+	}
+	var found error
+	ast.Inspect(expr, func(n ast.Node) bool {
+		ident, ok := n.(*ast.Ident)
+		if !ok || found != nil {
+			return found == nil
+		}
+		obj := pkg.TypesInfo.Uses[ident]
+		if obj == nil || obj.Pkg() != pkg.Types || obj.Parent() == nil || obj.Parent() == pkg.Types.Scope() {
+			return true // other packages, predeclared, fields and methods, package level
+		}
+		if _, isPkgName := obj.(*types.PkgName); isPkgName || (expr.Pos() <= obj.Pos() && obj.Pos() < expr.End()) {
+			return true
+		}
+		found = &localReferenceError{pos: p.fset.Position(ident.Pos()), name: ident.Name}
+		return false
+	})
+	return found
 }
 
 func (p *Parser) getVarDecl(pkg *packages.Package, obj *types.Var) ast.Expr {
